@@ -2,7 +2,7 @@ SPECIFICATION Spec
 CONSTANTS
   Params <- RecvWrapReal
   MaxBase = 65540
-  MaxHist = 3
+  MaxHist = 5
 VIEW View
 ACTION_CONSTRAINT PrintScript
 CHECK_DEADLOCK FALSE
